@@ -1,1 +1,297 @@
-//! C21: not implemented yet.
+//! C21 — Server statistics account for every datagram exactly once (ntp-proto part).
+//!
+//! Engine E-IN: C15's full policy lattice (address x deny/allow list+action x require-nts
+//! x accepted versions x byte-built request datagram) x response buffer size
+//! {0, 47, request length, 4096}, every case through the real `Server::handle` with a
+//! counting `ServerStatHandler`; plus a rate-limited sweep (cache on, cutoff 1 h, every
+//! request sent twice) so the RateLimit path is included.
+//!
+//! Reference (from the statement):
+//!   * exactly one `register` per `handle`;
+//!   * recorded response kind == what was actually done, judged from the returned
+//!     `ServerAction` and the answer bytes with the harness walker
+//!     (nothing sent -> Ignore, time -> ProvideTime, DENY kiss -> Deny, NTS NAK -> NTSNak);
+//!   * NTS flag false for every request without NTS fields, true for every request with
+//!     NTS fields (cookie / authenticator) that is answered.
+//!
+//! The daemon's counter mapping (`ServerStats`) is checked in /verif/harness/ntpd/c21.rs.
+use std::collections::BTreeMap;
+use std::net::IpAddr;
+use std::time::Duration;
+
+use super::c15::{self, Ans, Dgram, Keys, Kind, Outcome, Policy};
+use super::common::{self, Ctx};
+use crate::server::{ServerReason, ServerResponse};
+
+fn resp_tag(r: ServerResponse) -> &'static str {
+    match r {
+        ServerResponse::NTSNak => "nak",
+        ServerResponse::Deny => "deny",
+        ServerResponse::Ignore => "ignore",
+        ServerResponse::ProvideTime => "time",
+    }
+}
+
+fn buf_sizes(d: &Dgram) -> [usize; 4] {
+    [0, 47, d.bytes.len(), 4096]
+}
+
+/// Judge one handle call. `tag` distinguishes the sweeps in the trace.
+fn judge(ctx: &Ctx, trace: &dyn Fn() -> String, d: &Dgram, out: &Outcome, tally: &mut BTreeMap<String, u64>) {
+    if let Some(e) = &out.panic {
+        ctx.violation("C21:handle-panic", format!("Server::handle panicked: {e}"), trace());
+        return;
+    }
+    let seen = c15::classify(out.resp.as_deref(), d.version);
+    // exactly once
+    match out.regs.len() {
+        1 => {}
+        0 => {
+            ctx.violation(
+                "C21:no-registration",
+                format!("request {} was handled (answer: {}) without any statistics entry", d.name, seen.ans.tag()),
+                trace(),
+            );
+            *tally.entry("regs.0".into()).or_insert(0) += 1;
+            return;
+        }
+        n => {
+            ctx.violation(
+                "C21:multiple-registrations",
+                format!("request {} produced {n} statistics entries: {:?}", d.name, out.regs),
+                trace(),
+            );
+            *tally.entry("regs.many".into()).or_insert(0) += 1;
+            return;
+        }
+    }
+    let (_version, nts, reason, response) = out.regs[0];
+    *tally
+        .entry(format!("rec.{}.{:?}.{}", resp_tag(response), reason, if nts { "nts" } else { "plain" }))
+        .or_insert(0) += 1;
+    // kind matches what was done
+    let expect = match seen.ans {
+        Ans::None => Some(ServerResponse::Ignore),
+        Ans::Time => Some(ServerResponse::ProvideTime),
+        Ans::Deny => Some(ServerResponse::Deny),
+        Ans::Nak => Some(ServerResponse::NTSNak),
+        Ans::Rate | Ans::Odd => None,
+    };
+    match expect {
+        Some(e) if e == response => {}
+        Some(_) => ctx.violation(
+            &format!("C21:kind-mismatch:did-{}:recorded-{}", seen.ans.tag(), resp_tag(response)),
+            format!(
+                "request {}: the server {} but recorded {:?}/{:?}",
+                d.name,
+                match seen.ans {
+                    Ans::None => "sent nothing".to_string(),
+                    a => format!("sent a {} answer of {} bytes", a.tag(), seen.len),
+                },
+                response,
+                reason
+            ),
+            trace(),
+        ),
+        None => ctx.violation(
+            "C21:unclassifiable-answer",
+            format!("request {}: answer of {} bytes is neither time, DENY nor NAK (recorded {:?})", d.name, seen.len, response),
+            trace(),
+        ),
+    }
+    // NTS flag
+    match d.kind {
+        Kind::Plain => {
+            if nts {
+                ctx.violation(
+                    "C21:nts-flag-on-plain-request",
+                    format!("request {} has no NTS fields but was recorded with the NTS flag ({:?}/{:?})", d.name, response, reason),
+                    trace(),
+                );
+            }
+        }
+        Kind::NtsValid | Kind::NtsBad => {
+            if out.resp.is_some() {
+                *tally.entry(format!("nts-answered.{}.{}", seen.ans.tag(), if nts { "flag" } else { "NOFLAG" })).or_insert(0) += 1;
+                if !nts {
+                    let class = if d.kind == Kind::NtsBad && seen.ans == Ans::Deny {
+                        "C21:nts-flag-missing-on-denied-undecryptable".to_string()
+                    } else {
+                        format!("C21:nts-flag-missing-on-{}", seen.ans.tag())
+                    };
+                    ctx.violation(
+                        &class,
+                        format!(
+                            "request {} carries NTS fields ({:?}) and was answered with {} but recorded without the NTS flag ({:?}/{:?})",
+                            d.name,
+                            d.kind,
+                            seen.ans.tag(),
+                            response,
+                            reason
+                        ),
+                        trace(),
+                    );
+                }
+            }
+        }
+    }
+}
+
+fn buffer_for(size: usize) -> Vec<u8> {
+    vec![0u8; size]
+}
+
+fn replay(ctx: &Ctx, trace: &str) -> String {
+    let keys = Keys::new();
+    let f = c15::parse_fields(trace);
+    let Some(p) = Policy::parse(&f) else {
+        return format!("unparsable trace {trace:?}");
+    };
+    let Some(addr) = f.get("addr").and_then(|a| a.parse::<IpAddr>().ok()) else {
+        return "bad addr".into();
+    };
+    let alpha = c15::alphabet(&keys);
+    let Some(d) = alpha.iter().find(|d| Some(&d.name) == f.get("dg")) else {
+        return "unknown datagram".into();
+    };
+    let bufsize: usize = f.get("buf").and_then(|s| s.parse().ok()).unwrap_or(4096);
+    let repeat: usize = f.get("rep").and_then(|s| s.parse().ok()).unwrap_or(1);
+    let (mut server, _clock) = p.server(&keys);
+    let mut buf = buffer_for(bufsize);
+    let mut obs = Vec::new();
+    for _ in 0..repeat {
+        let out = c15::run_handle(&mut server, addr, &d.bytes, &mut buf);
+        let mut tally = BTreeMap::new();
+        let t = || trace.to_string();
+        judge(ctx, &t, d, &out, &mut tally);
+        let seen = c15::classify(out.resp.as_deref(), d.version);
+        obs.push(format!("did={} len={} regs={:?} panic={:?}", seen.ans.tag(), seen.len, out.regs, out.panic));
+    }
+    format!("request={} ({:?}) buf={} -> {}", d.name, d.kind, bufsize, obs.join(" ; "))
+}
+
+/// Print NTS request fixtures for the ntpd half (`VERIF_GF_EMIT=1`): requests that
+/// authenticate under the key set `KeySetProvider::load` builds from id-offset 1 and an
+/// all-zero key.
+#[test]
+fn emit_fixtures() {
+    if std::env::var("VERIF_GF_EMIT").is_err() {
+        return;
+    }
+    let keys = Keys::new();
+    for d in c15::alphabet(&keys) {
+        if ["v4.nts.ok.m3", "v5.nts.ok.m3"].contains(&d.name.as_str()) {
+            println!("FIXTURE {} {}", d.name, common::hex(&d.bytes));
+        }
+    }
+}
+
+#[test]
+fn check() {
+    let ctx = Ctx::new("C21");
+    if let Some(t) = common::replay_trace() {
+        let a = replay(&ctx, &t);
+        let b = replay(&ctx, &t);
+        common::report_replay("C21", &a, &b, ctx.violation_count() > 0);
+        return;
+    }
+    let thorough = !ctx.quick();
+    let keys = Keys::new();
+    let alpha = c15::alphabet(&keys);
+    let addrs = c15::addresses(thorough);
+    let pols = c15::policies(thorough);
+    ctx.rule(
+        "C15's full lattice (client address x deny list x deny action x allow list x allow action x require-nts x every subset of \
+         accepted versions x byte-built request datagram: plain/NTS-valid/NTS-undecryptable in every mode, other drafts, malformed) x \
+         response buffer size {0, 47, request length, 4096}; plus, with the rate limiter on (cache 4 slots, cutoff 1 h), every \
+         (list configuration, address, datagram) handled twice in a row with a 4096-byte buffer. quick = base address/list sets, \
+         thorough = extended sets. Distinct & non-trivial = a (policy, address, datagram, buffer) case in which an answer was \
+         attempted (the recorded kind is not a policy/parse 'Ignore'), i.e. serialisation and the NTS flag rules are exercised.",
+    );
+    ctx.assume("what was 'actually done' is read from the returned ServerAction and the answer bytes (harness walker: stratum, kiss code / v5 flags), not from the decoder under test");
+    ctx.assume("an 'NTS request' is a datagram that carries NTS fields (cookie and/or authenticator), whether or not it authenticates; a 'plain request' carries none");
+    ctx.assume("the version argument of register is not constrained by the statement and is not judged");
+    ctx.set("factor.addresses", addrs.len() as u64);
+    ctx.set("factor.policies", pols.len() as u64);
+    ctx.set("factor.datagrams", alpha.len() as u64);
+    // ---- sweep 1: lattice x buffer sizes ----
+    common::par_for(pols.len() as u64, 4, |pi| {
+        let p = &pols[pi as usize];
+        let (mut server, _clock) = p.server(&keys);
+        let mut tally: BTreeMap<String, u64> = BTreeMap::new();
+        let mut hashes = Vec::new();
+        let mut n = 0u64;
+        let mut bufs: BTreeMap<usize, Vec<u8>> = BTreeMap::new();
+        for (ai, addr) in addrs.iter().enumerate() {
+            for (di, d) in alpha.iter().enumerate() {
+                for (bi, bs) in buf_sizes(d).iter().enumerate() {
+                    // request length may coincide with another size: still run (cheap), counted once as distinct
+                    let buf = bufs.entry(*bs).or_insert_with(|| buffer_for(*bs));
+                    let out = c15::run_handle(&mut server, *addr, &d.bytes, buf);
+                    n += 1;
+                    let trace = || format!("{};addr={};dg={};buf={}", p.trace(), addr, d.name, bs);
+                    judge(&ctx, &trace, d, &out, &mut tally);
+                    if let Some(r) = out.regs.first() {
+                        let attempted = r.3 != ServerResponse::Ignore || r.2 == ServerReason::InternalError;
+                        if attempted {
+                            hashes.push(common::hash_of(&(pi, ai, di, *bs)));
+                        }
+                    }
+                    if pi % 1201 == 7 && ai == 0 && di % 23 == 3 && bi == 2 {
+                        ctx.sample(format!("{} -> regs {:?}", trace(), out.regs));
+                    }
+                }
+            }
+        }
+        ctx.distinct_many(hashes);
+        ctx.add("evaluations", n);
+        ctx.add("transitions", n);
+        ctx.add("states", 1);
+        for (k, v) in tally {
+            ctx.add(&k, v);
+        }
+    });
+    // ---- sweep 2: rate limiter on, every request twice ----
+    let rl_pols: Vec<Policy> = pols
+        .iter()
+        .filter(|p| p.require_nts.is_none() && p.versions == 7)
+        .map(|p| {
+            let mut q = p.clone();
+            q.cache_size = 4;
+            q.cutoff = Duration::from_secs(3600);
+            q
+        })
+        .collect();
+    ctx.set("factor.ratelimit_policies", rl_pols.len() as u64);
+    common::par_for(rl_pols.len() as u64, 1, |pi| {
+        let p = &rl_pols[pi as usize];
+        let mut tally: BTreeMap<String, u64> = BTreeMap::new();
+        let mut n = 0u64;
+        let mut hashes = Vec::new();
+        let mut buf = buffer_for(4096);
+        for (ai, addr) in addrs.iter().enumerate() {
+            for (di, d) in alpha.iter().enumerate() {
+                // fresh server: the two requests of this pair are the whole history
+                let (mut server, _clock) = p.server(&keys);
+                for rep in 1..=2usize {
+                    let out = c15::run_handle(&mut server, *addr, &d.bytes, &mut buf);
+                    n += 1;
+                    let trace = || format!("{};addr={};dg={};buf=4096;rep={}", p.trace(), addr, d.name, rep);
+                    judge(&ctx, &trace, d, &out, &mut tally);
+                    if out.regs.first().map(|r| r.2) == Some(ServerReason::RateLimit) {
+                        hashes.push(common::hash_of(&("rl", pi, ai, di)));
+                    }
+                }
+            }
+        }
+        ctx.distinct_many(hashes);
+        ctx.add("evaluations", n);
+        ctx.add("transitions", n);
+        ctx.add("states", 1);
+        for (k, v) in tally {
+            ctx.add(&format!("rl.{k}"), v);
+        }
+    });
+    ctx.exhaustive(true);
+    ctx.finish();
+}
